@@ -1,7 +1,9 @@
 package hx
 
 import (
+	"runtime"
 	"sort"
+	"strings"
 
 	"pgregory.net/rapid"
 )
@@ -44,4 +46,18 @@ func SortedKeys[V any](m map[string]V) []string {
 	}
 	sort.Strings(ks)
 	return ks
+}
+
+// Goroutines returns the stacks of the goroutines that have a frame containing
+// the substring (all of them for ""), for the log of a stuck case.
+func Goroutines(substr string) string {
+	buf := make([]byte, 4<<20)
+	buf = buf[:runtime.Stack(buf, true)]
+	var out []string
+	for _, g := range strings.Split(string(buf), "\n\n") {
+		if substr == "" || strings.Contains(g, substr) {
+			out = append(out, g)
+		}
+	}
+	return strings.Join(out, "\n\n")
 }
